@@ -1128,15 +1128,19 @@ def gen_awgn():
         if kind in seen:
             continue
         seen.add(kind)
-        # first statement: `real_t stddev = <expr of rms(arr), snr>;`
-        first = body_of(f)["inner"][0]
-        if first.get("kind") != "DeclStmt" or first["inner"][0].get("name") != "stddev":
-            raise Unsupported("awgn(%s): body does not start with the stddev formula" % kind)
-        init = [c for c in first["inner"][0]["inner"]][0]
+        # statements up to and including `real_t stddev = <expr of rms(arr), snr>;` (earlier local declarations become lets)
+        stmts = body_of(f)["inner"]
+        idx = None
+        for i, st in enumerate(stmts):
+            if st.get("kind") == "DeclStmt" and any(d.get("name") == "stddev" for d in st.get("inner", [])):
+                idx = i
+                break
+        if idx is None:
+            raise Unsupported("awgn(%s): no `stddev` declaration found" % kind)
         tr = Tr(user_calls={"rms": lambda a, n: "rmsArr"})
-        expr = tr.e(init)
+        body = tr.stmts(stmts[:idx + 1], "stddev", False)
         out.append("/-- `awgn(const arr_%s&, real_t snr)`: deviation of each noise component, given `rmsArr = rms(arr)` -/\n"
-                   "def awgnSigma%s (rmsArr %s : α) : α :=\n  %s\n" % ("cmplx" if kind == "C" else "real", kind, ps[1]["name"], expr))
+                   "def awgnSigma%s (rmsArr %s : α) : α :=\n%s\n" % ("cmplx" if kind == "C" else "real", kind, ps[1]["name"], indent(body)))
     if seen != {"R", "C"}:
         raise Unsupported("awgn overloads found: %s" % sorted(seen))
     out.append("end Gen\nend Dsp\n")
